@@ -49,7 +49,7 @@ def _outcome(fn):
 
 
 ENTRY = ("datetime", "datetime_local_str", "set_same_raw", "at_same_raw", "on_same_raw", "set_nothing_raw", "create", "convert", "instance", "set", "replace", "replace_fold", "on_at", "on_keep_time_summer", "on_keep_time_winter", "set_foreign", "on_at_foreign",
-         "parse", "tz_datetime", "naive_in_tz", "local")
+         "parse", "from_format", "tz_datetime", "naive_in_tz", "local")
 
 
 def _call(pendulum, name, z, tzobj, f, fold, rse, recv):
@@ -136,6 +136,11 @@ def _call(pendulum, name, z, tzobj, f, fold, rse, recv):
             return None, None
         text = f"{y:04d}-{mo:02d}-{d:02d}T{h:02d}:{mi:02d}:{s:02d}.{us:06d}"
         return 1, lambda: pendulum.parse(text, tz=z)
+    if name == "from_format":
+        if y < 1000 or not isinstance(z, str):
+            return None, None
+        text = f"{y:04d}-{mo:02d}-{d:02d} {h:02d}:{mi:02d}:{s:02d}.{us:06d}"
+        return 1, lambda: pendulum.from_format(text, "YYYY-MM-DD HH:mm:ss.SSSSSS", tz=z)
     if name == "tz_datetime":
         return 1, lambda: tzobj.datetime(y, mo, d, h, mi, s, us)
     if name == "naive_in_tz":
